@@ -638,7 +638,7 @@ func (cf *ContractFile) parseOne(path string) error {
 			case "note":
 				c.Notes = append(c.Notes, rest)
 			case "modifies":
-				c.Modifies = append(c.Modifies, strings.Fields(strings.ReplaceAll(rest, ",", " "))...)
+				c.Modifies = append(c.Modifies, strings.Fields(rest)...)
 			case "effect":
 				// effect [if COND :] LHS = RHS
 				var cond ast.Expr
